@@ -20,7 +20,7 @@ WT = "/tmp/mutwt"
 
 def sh(cmd, cwd=None, timeout=900):
     try:
-        r = subprocess.run(cmd, shell=True, cwd=cwd, env=ENV, capture_output=True, text=True, timeout=timeout)
+        r = subprocess.run(cmd, shell=True, cwd=cwd, env=ENV, capture_output=True, text=True, errors='replace', timeout=timeout)
         return r.returncode, r.stdout + r.stderr
     except subprocess.TimeoutExpired:
         return 124, "timeout"
